@@ -35,7 +35,8 @@ pub const CALL_GAS_LIMIT: u64 = 20_000_000;
 pub const CONTROLLER: &str = "c54dd4581af2dbf18e4d90840226756e9d2b3cdb";
 pub const INDEXER: &str = "0000000000000000000000000000000000003ca6";
 pub const INVALID: &str = "000000000000000000000000000000000000dead";
-const WATCHDOG: Duration = Duration::from_secs(20);
+// generous: a verdict of the clock must not depend on how busy the machine is
+const WATCHDOG: Duration = Duration::from_secs(45);
 
 // ------------------------------------------------------------------------------------------
 // bytes that print as 0x-hex in JSON
